@@ -26,7 +26,9 @@ PLAN = {
     "C13": {"steps": [codec()]},
     "C16": {"steps": [codec(part="dynamic")]},
     "C17": {"steps": [codec()]},
+    "C09": {"steps": [net(), net(variant="race", tiers=["thorough"], scale={"thorough": 0.05})]},
     "C20": {"steps": [net(), net(variant="race", tiers=["thorough"])]},
 }
+LEVEL["C09"] = "fault_enumeration"
 for k in PLAN:
     LEVEL.setdefault(k, "exploration")
